@@ -299,7 +299,7 @@ func checkCommands(fatalf func(string, ...any), r registration, cmds []string, d
 }
 
 func TestC14Commands(t *testing.T) {
-	hx.Check(t, hx.Scale(30000, 1000000), func(t *rapid.T) {
+	hx.Check(t, hx.Scale(80000, 1000000), func(t *rapid.T) {
 		dc := "dc1"
 		odd := genRegistration(t, false)
 		var neighbours []registration
